@@ -142,6 +142,8 @@ func (w *Walker) Inlined() []*ssa.Function {
 
 // translateAtom rewrites the callee's parameter references ($i, not $$i) by the
 // caller-side expressions and re-normalises commutative comparisons.
+func TranslateAtom(a string, subst map[int]string) string { return translateAtom(a, subst) }
+
 func translateAtom(a string, subst map[int]string) string {
 	var sb []byte
 	for i := 0; i < len(a); i++ {
